@@ -399,6 +399,8 @@ class Interp:
             return Opaque(f"{obj.what}.{name}")
         if isinstance(obj, tuple) and len(obj) == 2 and obj[0] == "builtin" and obj[1] in ("set", "frozenset"):
             return ("setfn", name)
+        if isinstance(obj, tuple) and len(obj) == 2 and obj[0] == "native" and hasattr(obj[1], name):
+            return ("native", getattr(obj[1], name))
         if isinstance(obj, tuple) and len(obj) == 2 and obj == ("builtin", "chain") and name == "from_iterable":
             return ("builtin", "chain_from_iterable")
         if isinstance(obj, tuple) and len(obj) == 2 and obj[0] == "builtin" and obj[1] in ("str", "dict", "list"):
@@ -408,6 +410,8 @@ class Interp:
         if getattr(type(obj), "_interp_native_", False):
             val = getattr(obj, name)
             return ("native", val) if callable(val) else val
+        if isinstance(obj, tuple) and len(obj) == 2 and obj == ("pymodule", "itertools") and name == "groupby":
+            return ("builtin", "groupby")
         if isinstance(obj, tuple) and len(obj) == 2 and obj[0] == "pymodule":
             if obj[1] == "warnings":
                 return ("native", lambda *a, **k: None)
@@ -894,6 +898,8 @@ class Interp:
                 return ("builtin", mod.imports[n.id][1])
             if mod is not None and n.id in mod.imports and mod.imports[n.id] in (("functools", "partial"), ("typing", "cast")):
                 return ("builtin", mod.imports[n.id][1])
+            if mod is not None and n.id in mod.imports and mod.imports[n.id] in (("copy", "deepcopy"), ("copy", "copy")):
+                return ("builtin", mod.imports[n.id][1])
             if mod is not None and n.id in mod.imports and mod.imports[n.id] == ("types", "MappingProxyType"):
                 return ("builtin", "dict")  # a read-only view: same lookups as the dict it wraps
             if mod is not None and n.id in mod.imports and mod.imports[n.id][0] in ("operator", "contextlib", "functools") and mod.imports[n.id][1] is None:
@@ -908,7 +914,7 @@ class Interp:
             if mod is not None and n.id in mod.imports and mod.imports[n.id] == ("dataclasses", "astuple"):
                 return ("builtin", "astuple")
             if mod is not None and n.id in mod.imports and mod.imports[n.id][0] in ("itertools", "functools") \
-                    and mod.imports[n.id][1] in ("islice", "chain", "reduce", "count", "zip_longest"):
+                    and mod.imports[n.id][1] in ("islice", "chain", "reduce", "count", "zip_longest", "groupby"):
                 return ("builtin", mod.imports[n.id][1])
             if mod is not None and n.id in mod.imports and mod.imports[n.id][0] == "bisect" and mod.imports[n.id][1]:
                 import bisect as _bisect
@@ -1476,7 +1482,7 @@ class Interp:
             elif args or kwargs:
                 # a class of the repository without __init__ that is neither a dataclass nor a NamedTuple, called with
                 # arguments: the evaluator does not know how it stores them - no verdict rather than a half-built object
-                if not any(b.split(".")[-1] in BUILTIN_EXC or b.endswith(("Error", "Exception")) for k in self.repo.mro(c) for b in k.bases):
+                if not any(b.split(".")[-1] in BUILTIN_EXC or b.endswith(("Error", "Exception", "Warning")) for k in self.repo.mro(c) for b in k.bases):
                     raise Uninterpretable(f"construction of {f.name} with arguments but no modelled __init__")
             return o
         if isinstance(f, tuple) and f and f[0] == "builtin":
@@ -1645,6 +1651,50 @@ class Interp:
         if name == "map":
             cols = [self.iterate(a) for a in args[1:]]
             return _Gen([self.apply(args[0], list(xs), {}, func, depth) for xs in zip(*cols)])
+        if name in ("deepcopy", "copy"):
+            def dc(o, memo, deep):
+                if id(o) in memo:
+                    return memo[id(o)]
+                if isinstance(o, Obj):
+                    m_ = self.method(o, "__deepcopy__" if deep else "__copy__") if self.repo.has_cls(o.cls_name) else None
+                    if m_ is not None:
+                        raise Uninterpretable(f"custom {'deep' if deep else ''}copy of {o.cls_name}")
+                    n_ = Obj(o.cls_name)
+                    memo[id(o)] = n_
+                    for k_, v_ in o.fields.items():
+                        n_.fields[k_] = dc(v_, memo, deep) if deep else v_
+                    return n_
+                if not deep:
+                    return SetVal(o) if isinstance(o, SetVal) else list(o) if isinstance(o, list) else dict(o) if isinstance(o, dict) else o
+                if isinstance(o, SetVal):
+                    return SetVal([dc(x, memo, deep) for x in o])
+                if isinstance(o, list):
+                    r_ = type(o)() if type(o) is not list else []
+                    memo[id(o)] = r_
+                    r_.extend(dc(x, memo, deep) for x in o)
+                    return r_
+                if isinstance(o, tuple):
+                    return tuple(dc(x, memo, deep) for x in o)
+                if isinstance(o, dict):
+                    r_ = {}
+                    memo[id(o)] = r_
+                    for k_, v_ in o.items():
+                        r_[k_] = dc(v_, memo, deep)
+                    return r_
+                return o
+            return dc(args[0], {}, name == "deepcopy")
+        if name == "groupby":
+            # eager model of itertools.groupby: consecutive runs of equal keys; each group is its own single-use iterator
+            items = self.iterate(args[0])
+            keyf = kwargs.get("key", args[1] if len(args) > 1 else None)
+            runs = []
+            for x in items:
+                kx = x if keyf is None else self.apply(keyf, [x], {}, func, depth)
+                if runs and self.equals(runs[-1][0], kx, depth):
+                    runs[-1][1].append(x)
+                else:
+                    runs.append((kx, [x]))
+            return _Gen([(kx, _Gen(xs)) for kx, xs in runs])
         if name == "chain_from_iterable":
             out = []
             for a in self.iterate(args[0]):
